@@ -90,12 +90,14 @@ Record wt := {
   f_base : option bytes;          (* <name>.BASE *)
   f_this : option bytes;          (* <name>.THIS *)
   f_other : option bytes;         (* <name>.OTHER *)
+  f_alike : option bytes;         (* <name>.BASE.orig: an unrelated look-alike, never touched *)
   conflicted : bool               (* TextConflict(<name>) in wt.conflicts() *)
 }.
 
 Definition text (ls : list line) : bytes := List.concat ls.
 Definition wt0 (this : list line) : wt :=
-  {| f_main := Some (text this); f_base := None; f_this := None; f_other := None; conflicted := false |}.
+  {| f_main := Some (text this); f_base := None; f_this := None; f_other := None; f_alike := None;
+     conflicted := false |}.
 
 (* _merge_contents for a file present in all three trees + text_merge + _dump_conflicts.
    contents_pair = (kind, sha1): modelled by equality of the texts. *)
@@ -105,33 +107,89 @@ Definition merge_file (o : opts) (base this other : list line) (rs : list iregio
   else if bytes_eqb tt ot then Some w                    (* _three_way: this == other -> "this" *)
   else if bytes_eqb bt tt then                           (* this == base -> "other": create_from_tree(OTHER) *)
     Some {| f_main := Some ot; f_base := f_base w; f_this := f_this w; f_other := f_other w;
-            conflicted := conflicted w |}
+            f_alike := f_alike w; conflicted := conflicted w |}
   else
     match text_merge o base this other rs with
     | None => None
     | Some (ls, true) =>                                  (* _raw_conflicts + _dump_conflicts(lines=...) *)
         Some {| f_main := Some (text ls); f_base := Some bt; f_this := Some tt; f_other := Some ot;
-                conflicted := true |}
+                f_alike := f_alike w; conflicted := true |}
     | Some (ls, false) =>
         Some {| f_main := Some (text ls); f_base := f_base w; f_this := f_this w; f_other := f_other w;
-                conflicted := conflicted w |}
+                f_alike := f_alike w; conflicted := conflicted w |}
     end.
 
-(* ---- resolve(tree, [name], action=take_this|take_other) ---- *)
-Inductive action := ANone | TakeThis | TakeOther.
+(* ---- between merge and resolve: the user removes some helper files by hand and/or creates
+   an unrelated file whose name merely starts like a helper (<name>.BASE.orig) ---- *)
+Definition user_edit (rm_base rm_this rm_other : bool) (alike : option bytes) (w : wt) : wt :=
+  {| f_main := f_main w;
+     f_base := if rm_base then None else f_base w;
+     f_this := if rm_this then None else f_this w;
+     f_other := if rm_other then None else f_other w;
+     f_alike := match alike with Some x => Some x | None => f_alike w end;
+     conflicted := conflicted w |}.
 
-(* TextConflict._resolve swaps <name> and <name>.<SUFFIX>; cleanup() deletes .THIS .BASE .OTHER;
-   set_conflicts(the rest).  None = the winner helper is missing (the real code fails; not exercised) *)
+(* ---- resolve(tree, [name], action=done|take_this|take_other) ---- *)
+Inductive action := ANone | ADone | TakeThis | TakeOther.
+Inductive helper := HThis | HBase | HOther.
+
+(* osutils.delete_any(tree.abspath(fname)): None = FileNotFoundError *)
+Definition delete_helper (h : helper) (w : wt) : option wt :=
+  match h with
+  | HThis => match f_this w with
+             | Some _ => Some {| f_main := f_main w; f_base := f_base w; f_this := None; f_other := f_other w;
+                                 f_alike := f_alike w; conflicted := conflicted w |}
+             | None => None end
+  | HBase => match f_base w with
+             | Some _ => Some {| f_main := f_main w; f_base := None; f_this := f_this w; f_other := f_other w;
+                                 f_alike := f_alike w; conflicted := conflicted w |}
+             | None => None end
+  | HOther => match f_other w with
+              | Some _ => Some {| f_main := f_main w; f_base := f_base w; f_this := f_this w; f_other := None;
+                                  f_alike := f_alike w; conflicted := conflicted w |}
+              | None => None end
+  end.
+
+(* Conflict.cleanup: for fname in associated_filenames(): with suppress(FileNotFoundError): delete_any(fname)
+   -- a missing helper is skipped, the loop goes on.  associated_filenames = .THIS .BASE .OTHER
+   (bzr; the git TextConflict lists .BASE .OTHER .THIS: the result is the same) *)
+Definition cleanup_step (w : wt) (h : helper) : wt :=
+  match delete_helper h w with Some w' => w' | None => w end.
+Definition cleanup (w : wt) : wt := fold_left cleanup_step [HThis; HBase; HOther] w.
+
+(* set_conflicts(the rest) *)
+Definition unrecord (w : wt) : wt :=
+  {| f_main := f_main w; f_base := f_base w; f_this := f_this w; f_other := f_other w;
+     f_alike := f_alike w; conflicted := false |}.
+
+(* TextConflict._resolve(tt, SUFFIX): swap <name> and <name>.<SUFFIX>.
+   None = the winner helper does not exist: MalformedTransform, nothing is changed *)
+Definition swap_winner (act : action) (w : wt) : option wt :=
+  match act with
+  | TakeThis =>
+      match f_this w with
+      | Some m => Some {| f_main := Some m; f_base := f_base w; f_this := f_main w; f_other := f_other w;
+                          f_alike := f_alike w; conflicted := conflicted w |}
+      | None => None end
+  | TakeOther =>
+      match f_other w with
+      | Some m => Some {| f_main := Some m; f_base := f_base w; f_this := f_this w; f_other := f_main w;
+                          f_alike := f_alike w; conflicted := conflicted w |}
+      | None => None end
+  | _ => Some w                                           (* action_done: pass *)
+  end.
+
+(* breezy.conflicts.resolve: conflict.do(action); conflict.cleanup(); set_conflicts(new_conflicts).
+   None = MalformedTransform raised by do(); the tree is left as it was *)
 Definition resolve (act : action) (w : wt) : option wt :=
   if negb (conflicted w) then Some w                      (* nothing selected: no-op *)
-  else
-    let done m := Some {| f_main := Some m; f_base := None; f_this := None; f_other := None;
-                          conflicted := false |} in
-    match act with
-    | ANone => Some w
-    | TakeThis => match f_this w with Some m => done m | None => None end
-    | TakeOther => match f_other w with Some m => done m | None => None end
-    end.
+  else match act with
+       | ANone => Some w                                  (* resolve not called *)
+       | _ => match swap_winner act w with
+              | Some w1 => Some (unrecord (cleanup w1))
+              | None => None
+              end
+       end.
 
 (* ---- the specification side: what the file should hold ---- *)
 (* the merged text with ordinary markers = merge_lines with "<<<<<<<" as start marker *)
@@ -154,12 +212,21 @@ Definition guard (base this other : list line) : bool := no_sentinel (base ++ th
 
 (* ---- observations ---- *)
 Definition obs_wt (w : wt) : obs :=
-  OL [oopt OB (f_main w); oopt OB (f_base w); oopt OB (f_this w); oopt OB (f_other w); obool (conflicted w)].
+  OL [oopt OB (f_main w); oopt OB (f_base w); oopt OB (f_this w); oopt OB (f_other w); oopt OB (f_alike w);
+      obool (conflicted w)].
 
-Definition run_case (o : opts) (base this other : list line) (rs : list iregion) (act : action) : obs :=
+(* merge; the user removes helpers / adds a look-alike; resolve *)
+Definition run_case (o : opts) (base this other : list line) (rs : list iregion)
+           (rm_base rm_this rm_other : bool) (alike : option bytes) (act : action) : obs :=
   match merge_file o base this other rs (wt0 this) with
   | None => OL [OE "CantReprocessAndShowBase"; obs_wt (wt0 this)]
-  | Some w => OL [obs_wt w; match resolve act w with Some w' => obs_wt w' | None => OE "resolve" end]
+  | Some w =>
+      let w1 := user_edit rm_base rm_this rm_other alike w in
+      OL [obs_wt w;
+          match resolve act w1 with
+          | Some w' => obs_wt w'
+          | None => OL [OE "MalformedTransform"; obs_wt w1]
+          end]
   end.
 
 (* merge3.merge_lines itself (environment model), for the rendering-only correspondence cases *)
